@@ -41,7 +41,7 @@ func TestMain(m *testing.M) {
 		"Non-trivial = the call combines >=2 of {surplus positional, *seq, **dict, keyword-only parameter bound by name, default used, duplicate/multiple value}; "+
 		"distinct by canonical string of the case. unpack: (spec, target types, call) checked against the documented UnpackArgs rules; non-trivial = >=2 of "+
 		"{keyword argument, optional omitted, None for a ?? parameter, wrong type, duplicate, unknown keyword}.",
-		"thorough tier enumerates the full bounded product (exhaustive); quick tier takes a VERIF_SEED-keyed systematic sample of it (1/3 of the calls that bind, 1/60 of the rejected ones; unpack: all calls without a wrong-typed argument, 1/4 of the others) plus rapid-drawn cases",
+		"thorough tier enumerates the full bounded product (exhaustive); quick tier takes a VERIF_SEED-keyed systematic sample of it (1/2 of the calls that bind, 1/40 of the rejected ones; unpack: all calls without a wrong-typed argument, 1/4 of the others) plus rapid-drawn cases",
 		"argument names are drawn from {a,b,c,k,m,z} for every signature (names the signature does not declare act as undeclared names), plus a small family using the names args/kwargs",
 		"the binder was validated against CPython 3 on the whole product (VERIF_SELFTEST=1 go test -run TestSelfTestPython); python3 is not used for verdicts",
 		"signatures with more than 3+2 named parameters and calls with >255 arguments are outside this check")
@@ -817,7 +817,7 @@ func looksBindable(s Sig, npos int, named []string, starLen int, ss []string) bo
 	return true
 }
 
-const bindStride = 3
+const bindStride = 2
 
 func splitmix(x uint64) uint64 {
 	x += 0x9e3779b97f4a7c15
@@ -883,7 +883,7 @@ func enumBind(comp components, tag uint64, stride uint64, yield func(BindCase) b
 
 func TestPropBindProduct(t *testing.T) {
 	defer flushCounts()
-	stride := uint64(60)
+	stride := uint64(40)
 	if vk.Thorough() {
 		stride = 1
 	}
